@@ -188,9 +188,9 @@ extern "C" int pthread_cond_clockwait(pthread_cond_t* c, pthread_mutex_t* m, clo
       long long ms = vn < vdl ? (vdl - vn + 999999LL) / 1000000LL : 0;
       if (ms > t_maxWaitMs) t_maxWaitMs = ms;
     }
-    else if (realMonoNs() - t_episodeStartReal > 1500000000LL && !g_wantTimeout.load())
+    else if (realMonoNs() - t_episodeStartReal > 1000000000LL && !g_wantTimeout.load())
     {
-      // Nothing has happened for 1.5 s of REAL time (several nominal time-outs): whatever the script said, the peer is
+      // Nothing has happened for 1 s of REAL time (several nominal time-outs): whatever the script said, the peer is
       // silent for this caller — let the virtual clock run so that the wait ends by its own time-out.
       n_stalls++;
       g_wantTimeout = true;
